@@ -2,6 +2,7 @@ package pipe
 
 import (
 	"fmt"
+	"strconv"
 
 	"rare/pkg/expressions"
 	"rare/pkg/expressions/funclib"
@@ -67,7 +68,9 @@ type Facts struct {
 // RefEval is the sequential one-line-at-a-time reference: a private matcher instance, privately
 // compiled expressions and an independent context (expressions.KeyBuilderContextArray built from the
 // match indices: group i = line[idx[2i]:idx[2i+1]], absent groups empty, named groups by name).
-// Expressions must not use {src}, {line} or the JSON/array specials (they are not content-determined).
+// Expressions must not use the JSON/array specials; {src} and {line} are facts of the line, not of its
+// content: they are answered only by EvalAt (scenarios with Scenario.LineFacts, whose lines are
+// pairwise distinct, so that identity by content is identity by position).
 type RefEval struct {
 	m     matchers.Matcher
 	names map[string]int
@@ -97,7 +100,15 @@ func NewRefEval(ms MatcherSpec, extract string, ignore []string) (*RefEval, erro
 	return r, nil
 }
 
-func (r *RefEval) Eval(line []byte) Facts {
+func (r *RefEval) Eval(line []byte) Facts { return r.eval(line, nil) }
+
+// EvalAt evaluates the line as line number lineNo (1-based) of the input named src: the context of
+// the sequential one-line-at-a-time reading ({src} = src, {line} = lineNo).
+func (r *RefEval) EvalAt(line []byte, src string, lineNo int) Facts {
+	return r.eval(line, map[string]string{"src": src, "line": strconv.Itoa(lineNo)})
+}
+
+func (r *RefEval) eval(line []byte, lineFacts map[string]string) Facts {
 	cp := append([]byte(nil), line...)
 	idx := r.m.FindSubmatchIndex(cp)
 	if len(idx) == 0 {
@@ -110,6 +121,9 @@ func (r *RefEval) Eval(line []byte) Facts {
 		} else {
 			ctx.Elements = append(ctx.Elements, string(cp[idx[i]:idx[i+1]]))
 		}
+	}
+	for k, v := range lineFacts {
+		ctx.Keys[k] = v
 	}
 	for name, gi := range r.names {
 		if gi >= 0 && gi < len(ctx.Elements) {
